@@ -451,6 +451,14 @@ impl Group for C05 {
                 "blk 1 5 1 0",
                 "hold 1 0 1999000 1000000 0 0 1",
             ]),
+            // FA-1: under the permissive filter an HTLC worth less than its second-stage fee makes PHASE-2 counterparty
+            // signing fail (HTLC tx cannot be built), while PHASE 1 signs the commitment only and succeeds
+            v(&[
+                "policy 0 4 144 1000000001 10000 1000 16777216 0 253 4294967 222000 1073741824",
+                "setup 0 16777216 0 6 6 1 0 0 0",
+                "cp 0 0 253 16750652 0 0 2 1 62205896 13451 226927654",
+                "cp 0 2 253 16750652 0 0 2 1 62205896 13451 226927654",
+            ]),
             // on-chain validator: unburied funding, then buried, then closed on chain
             v(&[
                 "policy 1 4 2016 1000000001 10000 1000 16777216 0 253 333333 222000 0",
